@@ -135,7 +135,7 @@ Lemma process_step i T Dr B e : Sim i T Dr B -> id_fresh (eid (fe e)) ->
   parents_known T e -> nlookup (eid (fe e)) T = None -> (ecr (fe e) < nv)%nat -> ev_wf T e ->
   r_frame_ok vals T (mk_node nv T e) = true -> few_forkers vals (mk_node nv T e :: T) ->
   exists bl i', step cap [] sample i (OpP (ae e)) = (ObsP None bl (l_ldf (i_st i')) 1, i', false) /\
-    Sim i' (mk_node nv T e :: T) (e :: Dr) (B ++ map blk_obs bl).
+    Sim i' (mk_node nv T e :: T) (e :: Dr) (B ++ map blk_obs bl) /\ l_ctr (i_st i') = l_ctr (i_st i).
 Proof.
   intros [W [S [ES0 AV]] FR PR SG CH] Fe PK NL CR EW FO Hff'.
   set (n := mk_node nv T e). set (st := i_st i) in *. set (es := i_es i) in *.
@@ -224,7 +224,7 @@ Proof.
   { destruct D' as [S' [[C' _ _ _] _]]. apply (co_epoch _ _ _ _ _ _ _ C'). }
   rewrite Ep'.
   exists bl, {| i_st := st'; i_es := es1; i_proc := a_id (ae e) :: i_proc i |}. split; [reflexivity|].
-  cbn [i_st i_es i_proc]. constructor; cbn [i_st i_es i_proc].
+  cbn [i_st i_es i_proc]. split; [|rewrite CC, Ct2; reflexivity]. constructor; cbn [i_st i_es i_proc].
   - exact W'.
   - rewrite CC, Ct2. exact D'.
   - intros e0 [<-|He0]; [exact Fe | apply FR; exact He0].
